@@ -6,7 +6,7 @@ open IV IV.Proto IV.Dr IV.Specs
 `reg` (what registration leaves behind), `run` (evaluation under seeded contexts), `sup` (the rule). -/
 
 inductive BodySpec where
-  | val | none | fault (e : Exc)
+  | val | none | fault (e : Exc) | first
 
 structure St where
   points : List (Name × Comp) := []
@@ -40,7 +40,7 @@ def parseEntries (s : String) : Option (List Entry) :=
 def parseBody (s : String) : Option BodySpec :=
   match s with
   | "v" => some .val | "n" => some .none | "skip" => some (.fault .skip) | "content" => some (.fault .content)
-  | "crash" => some (.fault (.crash 1)) | _ => none
+  | "crash" => some (.fault (.crash 1)) | "first" => some .first | _ => none
 
 /-- outcomes: `cid=v,cid=skip` -/
 def parseOutcomes (s : String) : Option (List (Comp × BodySpec)) :=
@@ -60,10 +60,14 @@ def St.env (s : St) (outs : List (Comp × BodySpec)) : World where
   enabled _ := true
   ignore _ := []
   regPoints _ := []
-  body c _ := match ((outs.find? (·.1 == c)).map (·.2) : Option BodySpec) with
+  body c args := match ((outs.find? (·.1 == c)).map (·.2) : Option BodySpec) with
     | some BodySpec.val => .value (.atom (1000 + c))
     | some BodySpec.none => .value .none
     | some (BodySpec.fault e) => .fault e
+    | some BodySpec.first =>                    -- spec_factory.first_of: `for c in self.deps: if c in broker: return broker[c]`
+      match args.find? (·.isSome) with
+      | some (some v) => .value v
+      | _ => .value .none
     | none => .fault .badDecl
   elemBody _ _ := .noResult
 
@@ -83,7 +87,9 @@ def parseHEntries (s : String) : Option (List HEntry) :=
   (s.splitOn ";").foldr (fun p acc => match acc, p.splitOn ":" with
     | some l, [n, v, k, cs] => match n.toNat?, v.toNat?, nats '.' cs with
       | some n, some v, some cs =>
-        if k = "P" then some (⟨n, v, true, cs⟩ :: l) else if k = "D" then some (⟨n, v, false, cs⟩ :: l) else none
+        -- P: RegistryPoint, D: a datasource by type hierarchy, X: some other component type
+        if k = "P" then some (⟨n, v, true, cs, true⟩ :: l) else if k = "D" then some (⟨n, v, false, cs, true⟩ :: l)
+        else if k = "X" then some (⟨n, v, false, cs, false⟩ :: l) else none
       | _, _, _ => none
     | _, _ => none) (some [])
 
@@ -96,7 +102,7 @@ def toFlat (h : HHistory) : Option (List (Name × Comp) × History) :=
     if top.parents.isEmpty && top.entries.all (·.isPoint) &&
         rest.all (fun cd => cd.entries.all (fun e => !e.isPoint) && cd.parents.getLast? == some 0) then
       some (top.entries.map (fun e => (e.name, e.comp)),
-            rest.map (fun cd => ⟨cd.parents == [0], cd.entries.map (fun e => ⟨e.name, e.comp, e.ctxs⟩)⟩))
+            rest.map (fun cd => ⟨cd.parents == [0], (cd.entries.filter (·.isDs)).map (fun e => ⟨e.name, e.comp, e.ctxs⟩)⟩))
     else none
 
 def rootOfPts (pts : List (Name × Comp)) : Root where
